@@ -315,6 +315,44 @@ def p3_inline(out):
         out.notes.append(msg)
 
 
+def p3_fn(out, spec, cfg, clauses, known_pair=None):
+    """P3 for function-style models: the real function is run on every input of the model's
+    dump and (a) its result is judged by Tier A like any other recorded call, (b) compared with
+    the model's prediction (drift)."""
+    wd = WORK / out.prop
+    wd.mkdir(parents=True, exist_ok=True)
+    dump, st = core.tlc_dump(MC / spec, MC / (cfg + ".cfg"), out.prop)
+    trace = wd / f"replay_{cfg}.ndjson"
+    rc, err = core.run_sv(["replay", "fn", "--in", dump, "--out", trace])
+    if rc != 0:
+        raise ToolError(f"replay of {cfg} behaviours failed rc={rc}: {err[-500:]}")
+    recs, _, drift = split_replay(trace, wd)
+    res = core.validate("TraceCalls", recs, out.prop)
+    by_case = {}
+    for c, cl, ln in res["rejects"]:
+        by_case.setdefault(c, set()).update(cl)
+    viol = []
+    for c, cl in sorted(by_case.items()):
+        rel = cl & clauses
+        if known_pair and known_pair[0] in rel and known_pair[1] not in cl:
+            rel = rel - {known_pair[0]}
+        if rel:
+            viol.append((c, sorted(rel), 0))
+    if viol:
+        paths, bc = core.write_replays(out.prop, recs, viol, dict(family="replay_" + cfg))
+        for c in sorted(bc)[:6]:
+            out.violation(f"replayed {cfg} behaviour case {c}: clause(s) {sorted(bc[c])}", paths.get(c, "n/a"))
+    out.add("evaluations", drift["n"])
+    out.add("traces_validated_against_impl", drift["n"])
+    out.add("replayed_model_behaviours", drift["n"])
+    out.add("model_drift", drift["stream"])
+    if drift["stream"]:
+        msg = f"model drift: {cfg}: {drift['stream']} of {drift['n']} replayed behaviours differ from the model (informational)"
+        print("INFO " + msg)
+        out.notes.append(msg)
+    out.cov.setdefault("dumps", []).append({"cfg": cfg, "behaviours": st["behaviours"], "replayed": drift["n"], "cached": st["cached"]})
+
+
 def builder_family(out, clauses):
     """Histories of builder calls (TextDiffConfig / UnifiedDiff setters in any order), validated
     event by event against spec/abstract/Builder.tla."""
@@ -799,6 +837,7 @@ def c06(out):
                  "decoding and White_Space set) and str = bytes on valid UTF-8; non-trivial = input has a CR, a multi-byte or an invalid "
                  "sequence", sample_keys=("kind", "mode", "input", "tokens"))
     p2(out, "MCTokens.tla", ["MCTokens" + ("_t" if out.tier == "thorough" else "")])
+    p3_fn(out, "MCTokens.tla", "MCTokensDump", {"lossless", "shape", "str_bytes_same", "panic"})
     finish_counts(out)
 
 
@@ -886,6 +925,7 @@ def c18(out):
                  "cross-multiplication); non-trivial = >=2 results, or >=1 under a positive cutoff",
                  sample_keys=("word", "cands", "n", "p", "q", "result"))
     p2(out, "MCClose.tla", ["MCClose" + ("_t" if out.tier == "thorough" else "")], coverage=False)
+    p3_fn(out, "MCClose.tla", "MCCloseDump", {"closematch", "panic"})
     finish_counts(out)
 
 
@@ -970,6 +1010,8 @@ def c05(out):
     sfx = "_t" if out.tier == "thorough" else ""
     p2(out, "MCUdiff.tla", ["MCUdiff" + sfx, "MCUdiffRepair" + sfx], coverage=False)
     expect_violation(out, "MCUdiff.tla", "MCUdiffWitness", "AlwaysAccepted")
+    p3_fn(out, "MCUdiff.tla", "MCUdiffDump", {"patch", "patch_rep", "writer_display", "writer_hunks", "panic"},
+          known_pair=("patch", "patch_rep"))
     builder_family(out, {"builder_render"})
     finish_counts(out)
 
@@ -1002,7 +1044,8 @@ def setup():
              ("mcn", "MCIdentify.tla", "MCIdentify"), ("mcn", "MCClose.tla", "MCClose"),
              ("mcn", "MCRemap.tla", "MCRemap"), ("mcn", "MCInline.tla", "MCInline")]
     jobs += [("dump", "MCAlgs.tla", f"MCAlg_{a}{sfx}") for a in ("myers", "lcs", "patience") for sfx in ("_dump0", "_dump")]
-    jobs += [("dump", "MCCompact.tla", "MCCompactDump"), ("dump", "MCGroup.tla", "MCGroupDump"), ("dump", "MCInline.tla", "MCInlineDump")]
+    jobs += [("dump", "MCCompact.tla", "MCCompactDump"), ("dump", "MCGroup.tla", "MCGroupDump"), ("dump", "MCInline.tla", "MCInlineDump"),
+             ("dump", "MCUdiff.tla", "MCUdiffDump"), ("dump", "MCTokens.tla", "MCTokensDump"), ("dump", "MCClose.tla", "MCCloseDump")]
 
     def run(j):
         kind, spec, cfg = j
